@@ -73,6 +73,13 @@ def annotate(prog, rnd, pool, mode):
     elif mode == "nonce":
         inner = dict(q["main"])
         q["main"] = {"k": "Nonce", "t": inner["t"], "n": [rnd.randrange(256) for _ in range(rnd.choice((1, 4, 8)))], "s": "", "a": [inner], "i": [], "sp": 0}
+        if rnd.random() < 0.6:              # other bases, well formed and nearly well formed texts (PyTeal may refuse them; if it accepts, one push + pop)
+            import base64
+            raw = bytes(rnd.randrange(256) for _ in range(rnd.choice((0, 1, 2, 3, 4, 5, 8, 32))))
+            base = rnd.choice(("base64", "base32", "base16", "utf8"))
+            good = {"base64": base64.b64encode(raw).decode(), "base32": base64.b32encode(raw).decode(), "base16": raw.hex(), "utf8": rnd.choice(pool)}[base]
+            text = rnd.choice((good, good, good + "\n", good + " ", "\n" + good, good.rstrip("="), good + "\r", good + ")", good + "//x", good + ";int 0")) if base != "utf8" else good
+            q["main"]["s"] = base + ":" + text
         skip = [2, 3]
     elif mode == "name":
         if not q.get("rt"):
